@@ -2,6 +2,7 @@
    accepts a selector text exactly when it is the text of a step list that
    addresses something, for every variant of the model in which the four
    path-walking deviations are repaired; witnesses for each deviation. *)
+From Coq Require Import String.
 From Coq Require Import NArith ZArith List Bool Arith Lia.
 From V Require Import Base.UString Model.Markings Spec.MarkingSpec.
 Import ListNotations.
@@ -104,7 +105,7 @@ Proof.
       with ((([k], v) :: map (under k) (walk c false v)) ++ walk_members c m).
     rewrite in_app_iff. simpl. rewrite in_map_under. rewrite IH. split.
     + intros [[H | H] | H].
-      * inversion H; subst. exists k, v. split; auto.
+      * inversion H; subst. exists k, x. split; auto.
       * exists k, v. split; auto.
       * destruct H as [k' [v' [Hin H]]]. exists k', v'. split; auto.
     + intros [k' [v' [[Hin | Hin] H]]].
@@ -146,51 +147,80 @@ Proof. intros v x H. inversion H; auto. Qed.
 Lemma nth_error_Forall : forall {A} (P : A -> Prop) l i x, Forall P l -> nth_error l i = Some x -> P x.
 Proof. intros A P l i x HF Hn. apply nth_error_In in Hn. rewrite Forall_forall in HF. auto. Qed.
 
+Lemma addresses_cons_inv : forall v st p y, addresses v (st :: p) y ->
+  match st with
+  | Key k => exists m x, (v = VDict m \/ v = VObj m) /\ In (k, x) m /\ addresses x p y
+  | Index i => exists l x, v = VList l /\ nth_error l i = Some x /\ addresses x p y
+  end.
+Proof.
+  intros v st p y H. inversion H; subst.
+  - exists m, x. auto.
+  - exists m, x. auto.
+  - exists l, x. auto.
+Qed.
+
 Theorem walk_spec : forall c, walks_everything c ->
   forall v b segs x,
     In (segs, x) (walk c b v) <->
     exists p, p <> [] /\ map render_step p = segs /\ addresses v p x.
 Proof.
   intros c [Hidx [Hemb Hnest]].
-  induction v using mval_nested_ind; intros bb segs x;
-    try (simpl; split; [tauto | intros [p [Hne [_ Ha]]]; inversion Ha; subst; congruence]).
+  induction v as [ | bv | z | r | s | t | l IHl | m IHm | m IHm ] using mval_nested_ind; intros bb segs x;
+    try (simpl; split; [tauto | intros [p [Hne [_ Ha]]]; destruct p as [|st p]; [congruence|];
+                        apply addresses_cons_inv in Ha; destruct st;
+                        [destruct Ha as [m0 [x0 [[E|E] _]]]; discriminate
+                        |destruct Ha as [l0 [x0 [E _]]]; discriminate]]).
   - (* list *)
     rewrite (walk_list_nested c bb l Hnest). rewrite (walk_items_in c l l 0 segs x Hidx). simpl. split.
-    + intros [i [it [Hn Hc]]]. pose proof (nth_error_Forall _ _ _ _ H Hn) as IH.
+    + intros [i [it [Hn Hc]]]. pose proof (nth_error_Forall _ _ _ _ IHl Hn) as IH.
       destruct Hc as [[E1 E2] | [segs' [E Hin]]]; subst.
       * exists [Index i]. split; [discriminate|]. split; [reflexivity|]. eapply A_list; eauto. constructor.
       * apply IH in Hin. destruct Hin as [p [Hne [Hm Ha]]]. exists (Index i :: p).
         split; [discriminate|]. split; [simpl; congruence|]. eapply A_list; eauto.
-    + intros [p [Hne [Hm Ha]]]. inversion Ha; subst; try congruence.
-      exists i, x0. split; auto. pose proof (nth_error_Forall _ _ _ _ H H0) as IH.
+    + intros [p [Hne [Hm Ha]]]. destruct p as [|st p0]; [congruence|].
+      apply addresses_cons_inv in Ha. destruct st as [k|i].
+      { destruct Ha as [m0 [x0 [[E|E] _]]]; discriminate. }
+      destruct Ha as [l0 [x0 [E [Hn Ha]]]]. inversion E; subst l0. clear E.
+      exists i, x0. split; auto. pose proof (nth_error_Forall _ _ _ _ IHl Hn) as IH.
+      simpl in Hm. subst segs.
       destruct p0 as [|st p0].
-      * apply addresses_nil_inv in H1. subst. left. auto.
+      * apply addresses_nil_inv in Ha. subst. left. auto.
       * right. exists (map render_step (st :: p0)). split; [reflexivity|].
         apply IH. exists (st :: p0). split; [discriminate|]. auto.
   - (* dict *)
     rewrite walk_dict. rewrite walk_members_in. split.
-    + intros [k [v [Hin Hc]]]. rewrite Forall_forall in H. pose proof (H _ Hin) as IH. simpl in IH.
+    + intros [k [v [Hin Hc]]]. rewrite Forall_forall in IHm. pose proof (IHm _ Hin) as IH. simpl in IH.
       destruct Hc as [[E1 E2] | [segs' [E Hw]]]; subst.
       * exists [Key k]. split; [discriminate|]. split; [reflexivity|]. eapply A_dict; eauto. constructor.
       * apply IH in Hw. destruct Hw as [p [Hne [Hm Ha]]]. exists (Key k :: p).
         split; [discriminate|]. split; [simpl; congruence|]. eapply A_dict; eauto.
-    + intros [p [Hne [Hm Ha]]]. inversion Ha; subst; try congruence.
-      exists k, x0. split; auto. rewrite Forall_forall in H. pose proof (H _ H2) as IH. simpl in IH.
+    + intros [p [Hne [Hm Ha]]]. destruct p as [|st p0]; [congruence|].
+      apply addresses_cons_inv in Ha. destruct st as [k|i].
+      2:{ destruct Ha as [l0 [x0 [E _]]]; discriminate. }
+      destruct Ha as [m0 [x0 [E [Hin Ha]]]].
+      assert (m0 = m) by (destruct E as [E|E]; inversion E; auto). subst m0. clear E.
+      exists k, x0. split; auto. rewrite Forall_forall in IHm. pose proof (IHm _ Hin) as IH. simpl in IH.
+      simpl in Hm. subst segs.
       destruct p0 as [|st p0].
-      * apply addresses_nil_inv in H4. subst. left. auto.
+      * apply addresses_nil_inv in Ha. subst. left. auto.
       * right. exists (map render_step (st :: p0)). split; [reflexivity|].
         apply IH. exists (st :: p0). split; [discriminate|]. auto.
   - (* embedded object *)
     rewrite (walk_obj_any c bb m Hemb). rewrite walk_members_in. split.
-    + intros [k [v [Hin Hc]]]. rewrite Forall_forall in H. pose proof (H _ Hin) as IH. simpl in IH.
+    + intros [k [v [Hin Hc]]]. rewrite Forall_forall in IHm. pose proof (IHm _ Hin) as IH. simpl in IH.
       destruct Hc as [[E1 E2] | [segs' [E Hw]]]; subst.
       * exists [Key k]. split; [discriminate|]. split; [reflexivity|]. eapply A_obj; eauto. constructor.
       * apply IH in Hw. destruct Hw as [p [Hne [Hm Ha]]]. exists (Key k :: p).
         split; [discriminate|]. split; [simpl; congruence|]. eapply A_obj; eauto.
-    + intros [p [Hne [Hm Ha]]]. inversion Ha; subst; try congruence.
-      exists k, x0. split; auto. rewrite Forall_forall in H. pose proof (H _ H2) as IH. simpl in IH.
+    + intros [p [Hne [Hm Ha]]]. destruct p as [|st p0]; [congruence|].
+      apply addresses_cons_inv in Ha. destruct st as [k|i].
+      2:{ destruct Ha as [l0 [x0 [E _]]]; discriminate. }
+      destruct Ha as [m0 [x0 [E [Hin Ha]]]].
+      assert (m0 = m) by (destruct E as [E|E]; inversion E; auto). subst m0. clear E.
+      exists k, x0. split; auto. rewrite Forall_forall in IHm. pose proof (IHm _ Hin) as IH. simpl in IH.
+      simpl in Hm. subst segs.
       destruct p0 as [|st p0].
-      * apply addresses_nil_inv in H4. subst. left. auto.
+      * apply addresses_nil_inv in Ha. subst. left. auto.
       * right. exists (map render_step (st :: p0)). split; [reflexivity|].
         apply IH. exists (st :: p0). split; [discriminate|]. auto.
 Qed.
@@ -442,7 +472,32 @@ Proof.
 Qed.
 
 (* v20.Indicator as pinned: the constructor accepts a granular marking whose selector addresses nothing *)
+Definition red_id : ustring := u "marking-definition--5e57c739-391a-4eb3-b6be-7d15ca92d5ed".
+
 Definition ind20_witness : sobj :=
   mkobj KObj false true [(u "type", VStr (u "indicator")); (u "pattern", VStr (u "[file:name = 'a']"))] None
-        (Some [mkgm [u "nonexistent"] red_id []])
-  where "'red_id'" := (u "marking-definition--5e57c739-391a-4eb3-b6be-7d15ca92d5ed").
+        (Some [mkgm [u "nonexistent"] red_id []]).
+
+Lemma not_addressed_by_compute : forall top sel,
+  validate_selector cfg_repaired top sel = false -> ~ addresses_something top sel.
+Proof.
+  intros top sel H A. apply (validate_selector_iff_addresses cfg_repaired repaired_is_repaired) in A. congruence.
+Qed.
+
+Lemma ind20_refuted :
+  ~ addresses_something (view ind20_witness) (u "nonexistent") /\
+  ctor_check (with_ind20 Ind20Unchecked) ind20_witness = None /\
+  ctor_check (with_ind20 Ind20Checked) ind20_witness = Some EInvalidSelector.
+Proof.
+  split; [apply not_addressed_by_compute; vm_compute; reflexivity|]. split; vm_compute; reflexivity.
+Qed.
+
+(* the repaired configuration is not refuted by any of the witnesses (sanity: the witnesses are accepted) *)
+Lemma witnesses_accepted_when_repaired :
+  validate_selector cfg_repaired [(u "is_family", VBool false)] (u "is_family") = true /\
+  validate_selector cfg_repaired [(u "labels", VList [VStr (u "a"); VStr (u "a")])] (u "labels.[1]") = true /\
+  validate_selector cfg_repaired
+    [(u "external_references", VList [VObj [(u "source_name", VStr (u "s")); (u "url", VStr (u "http://x"))]])]
+    (u "external_references.[0].url") = true /\
+  validate_selector cfg_repaired [(u "x_m", VList [VList [VStr (u "a"); VStr (u "b")]])] (u "x_m.[0].[1]") = true.
+Proof. vm_compute. auto. Qed.
